@@ -5,8 +5,8 @@ seed="$(realpath "$1")"; prop="$2"; tier="${3:-quick}"
 wt="/tmp/wt/try_$$"
 git -C /repo worktree add -q --detach "$wt" HEAD || exit 3
 trap 'git -C /repo worktree remove --force "$wt" >/dev/null 2>&1' EXIT
-mkdir -p "$wt/seed_x"; cp "$seed"/*.py "$wt/seed_x/"; ( cd "$wt" && PYTHONPATH="$wt" /venv/bin/python -W ignore seed_x/demo.py >/dev/null 2>&1; echo "demo on clean tree: exit $?" )
+mkdir -p "$wt/seed_x"; cp "$seed"/*.py "$wt/seed_x/"; ( cd "$wt" && PYTHONPATH="$wt" timeout -k 5 900 /venv/bin/python -W ignore seed_x/demo.py >/dev/null 2>&1; echo "demo on clean tree: exit $?" )
 git -C "$wt" apply "$seed/patch.diff" || { echo "patch does not apply"; exit 3; }
-( cd "$wt" && PYTHONPATH="$wt" /venv/bin/python -W ignore seed_x/demo.py >/dev/null 2>&1; echo "demo on changed tree: exit $?" )
+( cd "$wt" && PYTHONPATH="$wt" timeout -k 5 900 /venv/bin/python -W ignore seed_x/demo.py >/dev/null 2>&1; echo "demo on changed tree: exit $?" )
 if [ -n "${TESTS:-}" ]; then ( cd "$wt" && timeout 1500 /venv/bin/python -W ignore -m pytest -q -p no:cacheprovider --timeout=900 $TESTS 2>&1 | tail -1 | sed "s|^|tests with change: |" ); fi
 cd /verif && VERIF_REPO="$wt" VERIF_SEED="${VERIF_SEED:-0}" ./check "$prop" --tier "$tier" 2>&1 | grep -E "VIOLATION|KNOWN-FINDING|exit [0-9]" 
